@@ -799,6 +799,278 @@ def run(c):
     dim("time: shear ghost boxes at t != 0", 0)
     dim("roles: non-identity encounter map (MERCURIUS/TRACE)", 0)
 
+    # ======================================================================= pairwise conjunctions (greedy all-pairs covering array)
+    from c02_pairs import covering_array, triples_array, PairLog
+    PF = {
+        "routine": ["basic", "compensated", "jacobi", "tree"],
+        "bnd": ["none", "periodic", "open", "shear"],
+        "roles": ["all-active", "one-active", "massive-tp", "massless-tp", "zero-mass-active"],
+        "tp": [0, 1],
+        "ignore": [0, 1, 2],
+        "soft": ["0", "small", "large"],
+        "G": ["1", "other"],
+        "nclass": ["2", "3-6", "7-20"],
+        "h1": ["none", "copy", "file", "pickle", "remove", "add", "whfast-step", "edit"],
+        "h2": ["none", "copy", "file", "pickle", "remove", "add", "whfast-step", "edit"],
+        "entry": ["calculate_acceleration", "update_acceleration", "step"],
+        "var": ["none", "first", "second"],
+        "cb": ["none", "additional_forces"],
+    }
+
+    def pf_ok(f):
+        r = f["routine"]
+        # COMPENSATED and JACOBI have no ghost-box loop (the source ignores N_ghost / boundaries there)
+        if r in ("compensated", "jacobi") and f["bnd"] != "none":
+            return False
+        # JACOBI ignores softening, gravity_ignore_terms and testparticle_type (fixed pair {0,1} exclusion, no softening)
+        if r == "jacobi" and (f["soft"] != "0" or f["ignore"] != 1 or f["roles"] == "zero-mass-active"):
+            return False
+        # gravity_ignore_terms is not read by the tree walk; tree needs a box (bnd none has no box)
+        if r == "tree" and (f["ignore"] != 0 or f["bnd"] == "none"):
+            return False
+        # variational particles: reb_calculate_acceleration_var exits for everything but BASIC / COMPENSATED; no boxes (var particles live outside)
+        if f["var"] != "none" and (r not in ("basic", "compensated") or f["bnd"] != "none" or "remove" in (f["h1"], f["h2"]) or "add" in (f["h1"], f["h2"])):
+            return False
+        # "testparticletype=1 not implemented for second order variational equations" (reb_calculate_acceleration_var raises)
+        if f["var"] == "second" and f["tp"] == 1:
+            return False
+        # a WHFast step needs a bound hierarchical system and Jacobi masses: only without boxes, all-active layouts
+        if "whfast-step" in (f["h1"], f["h2"]) and (f["bnd"] != "none" or f["roles"] in ("one-active", "zero-mass-active") or r == "tree" or f["var"] != "none"):
+            return False
+        # with n = 2 nothing can be removed without leaving a single particle for the pair-ignoring routines
+        if f["nclass"] == "2" and "remove" in (f["h1"], f["h2"]):
+            return False
+        # the JACOBI routine warns (Python raises) when stepped with an integrator other than WHFast/SABA
+        if r == "jacobi" and f["entry"] == "step":
+            return False
+        # reb_simulation_step runs boundary checks that remove particles outside the box: keep box + step + add apart from shear drift
+        if f["entry"] == "step" and f["bnd"] == "shear":
+            return False
+        # the callback is only reached through update_acceleration / step
+        if f["cb"] != "none" and f["entry"] == "calculate_acceleration":
+            return False
+        return True
+
+    rngp = SplitMix(20240 + 7 * c.seed)
+    arr, pvalid, pexcl = covering_array(PF, pf_ok, SplitMix(4711))          # the array itself does not depend on the seed
+    if c.thorough:
+        arr = arr + triples_array(PF, pf_ok, SplitMix(4712), ("routine", "roles", "bnd"), arr) + triples_array(PF, pf_ok, SplitMix(4713), ("routine", "h1", "h2"), arr)
+        todo_cases = arr
+    else:
+        k3 = 3
+        todo_cases = [cs for i_, cs in enumerate(arr) if i_ % k3 == c.seed % k3]      # every pair within three consecutive seeds
+    plog = PairLog(PF, pvalid, pexcl)
+    pw_fail = 0
+    for pi, f in enumerate(todo_cases):
+        rng = c.rng.fork()
+        try:
+            n = {"2": 2, "3-6": rng.randint(3, 6), "7-20": rng.randint(7, 20)}[f["nclass"]]
+            scale = rng.loguniform(1e-1, 1e1)
+            m0 = rng.loguniform(1e-2, 1e2)
+            ms = [m0] + [m0 * 10 ** (-rng.uniform(0, 6)) for _ in range(n - 1)]
+            if f["roles"] == "all-active":
+                na = -1
+            elif f["roles"] == "one-active":
+                na = 1
+            else:
+                na = rng.randint(1, n - 1) if n > 2 else 1
+                if f["roles"] == "massless-tp":
+                    for i in range(na, n):
+                        ms[i] = 0.0
+                if f["roles"] == "zero-mass-active":
+                    ms[rng.randint(0, na - 1)] = 0.0
+                    if na == 1:
+                        ms[0] = 0.0
+            G = 1.0 if f["G"] == "1" else rng.choice([6.6743e-11, 39.476926421373, rng.loguniform(1e-2, 1e2)])
+            soft = {"0": 0.0, "small": scale * 1e-6, "large": scale * rng.uniform(0.05, 2.0)}[f["soft"]]
+            cfg = dict(N=n, Na=na, tp=f["tp"], ignore=f["ignore"], G=G, soft=soft, ms=ms, mkind=7, scale=scale)
+            Lbox = scale * rng.uniform(6, 10)
+            whstep = "whfast-step" in (f["h1"], f["h2"])
+            if whstep:
+                # a hierarchical planetary system (positions/velocities from orbits) so that one WHFast step is harmless
+                sim0 = rebound.Simulation(); sim0.G = G
+                sim0.add(m=ms[0])
+                for i in range(1, n):
+                    sim0.add(m=ms[i], a=scale * 1.5 ** (i - 1), e=0.02, inc=0.02 * i, f=rng.uniform(0, 6.28))
+                xs = [[sim0.particles[i].x, sim0.particles[i].y, sim0.particles[i].z] for i in range(n)]
+                vs = [[sim0.particles[i].vx, sim0.particles[i].vy, sim0.particles[i].vz] for i in range(n)]
+            else:
+                xs = gen_positions(rng, n, scale, inside=(Lbox / 2 if f["bnd"] != "none" else None))
+                vs = [[rng.normal(), rng.normal(), rng.normal()] for _ in range(n)]
+            grav = f["routine"]
+            sim = rebound.Simulation()
+            sim.G = G; sim.softening = soft
+            sim.gravity = grav
+            if grav == "jacobi":
+                sim.integrator = "whfast"
+            if f["bnd"] != "none":
+                sim.opening_angle2 = 0.0
+                sim.configure_box(Lbox, rng.choice([1, 2]) if grav == "tree" else 1, 1, 1)
+                sim.boundary = f["bnd"]
+                gxs = (rng.randint(1, 2), rng.randint(0, 1), 0) if f["bnd"] == "shear" else (rng.randint(0, 1), rng.randint(0, 1), rng.randint(0, 1))
+                sim.N_ghost_x, sim.N_ghost_y, sim.N_ghost_z = gxs
+                cfg.update(boundary=f["bnd"], shifted=1, ngx=gxs[0], ngy=gxs[1], ngz=gxs[2], bs=(sim.boxsize.x, sim.boxsize.y, sim.boxsize.z))
+                if f["bnd"] == "shear":
+                    cfg["OMEGA"] = rng.choice([1.0, 2.5]); cfg["t"] = rng.uniform(0.1, 30.0) / (1.5 * cfg["OMEGA"])
+                    sim.ri_sei.OMEGA = cfg["OMEGA"]; sim.t = cfg["t"]
+                if grav == "tree":
+                    xs = [[max(-0.49 * cfg["bs"][c_], min(0.49 * cfg["bs"][c_], p[c_])) for c_ in range(3)] for p in xs]
+            for i in range(n):
+                sim.add(m=ms[i], x=xs[i][0], y=xs[i][1], z=xs[i][2], vx=vs[i][0], vy=vs[i][1], vz=vs[i][2])
+            sim.N_active = na; sim.testparticle_type = f["tp"]; sim.gravity_ignore = f["ignore"]
+            if f["var"] != "none":
+                v1 = sim.add_variation()
+                if f["var"] == "second":
+                    sim.add_variation(order=2, first_order=v1)
+                for i in range(n, sim.N):
+                    pv = sim.particles[i]
+                    pv.m = rng.uniform(0.1, 1.0); pv.x, pv.y, pv.z = rng.normal(), rng.normal(), rng.normal()
+                    pv.vx, pv.vy, pv.vz = rng.normal(), rng.normal(), rng.normal()
+            extra = None
+            # ---- the two history events, in this order (event adjacency)
+            for ev in (f["h1"], f["h2"]):
+                if ev == "copy":
+                    sim = sim.copy()
+                elif ev == "pickle":
+                    sim = pickle.loads(pickle.dumps(sim))
+                elif ev == "file":
+                    fn_ = os.path.join(tempfile.gettempdir(), "c02p_%d_%d.bin" % (os.getpid(), pi))
+                    sim.save_to_file(fn_, delete_file=True)
+                    sim = rebound.Simulation(fn_)
+                    os.remove(fn_)
+                elif ev == "remove":
+                    nr_ = sim.N - sim.N_var
+                    if nr_ >= 3:
+                        sim.remove(rng.randint(1, nr_ - 1), keep_sorted=(grav != "tree"))
+                elif ev == "add":
+                    nr_ = sim.N - sim.N_var
+                    pnew = [rng.normal() * scale * 0.3 for _ in range(3)]
+                    if f["bnd"] != "none":
+                        pnew = [max(-0.45 * cfg["bs"][c_], min(0.45 * cfg["bs"][c_], pnew[c_])) for c_ in range(3)]
+                    sim.add(m=m0 * 1e-3, x=pnew[0] + 0.013 * scale, y=pnew[1], z=pnew[2])
+                elif ev == "edit":
+                    k_ = rng.randint(0, sim.N - sim.N_var - 1)
+                    sim.particles[k_].m = sim.particles[k_].m * 1.7 + (m0 * 1e-4 if f["roles"] != "massless-tp" or k_ < (n if na == -1 else na) else 0.0)
+                    sim.particles[k_].x += 0.01 * scale
+                    sim.softening = sim.softening * 1.3
+                elif ev == "whfast-step":
+                    g_keep = sim.gravity
+                    sim.integrator = "whfast"; sim.dt = 1e-3 * math.sqrt(scale ** 3 / (G * m0)) if G * m0 > 0 else 1e-3
+                    sim.steps(1); sim.synchronize()
+                    sim.gravity = g_keep
+            # ---- state after the history = the specification's input
+            if grav == "tree":
+                tree_ready(sim)          # a removal in tree mode only flags the particle; the tree update drops it
+            nr_ = sim.N - sim.N_var
+            cfg["N"] = nr_
+            cfg["ms"] = [sim.particles[i].m for i in range(nr_)]
+            cfg["Na"] = sim.N_active
+            cfg["ignore"] = int(sim.gravity_ignore)
+            cfg["soft"] = sim.softening
+            if grav == "jacobi" and cfg["ignore"] != 1:
+                cfg["ignore"] = 1
+            if f["cb"] != "none":
+                extra = [(rng.normal(), rng.normal(), rng.normal()) for _ in range(nr_)]
+
+                def af(simp, _extra=extra):
+                    ps_ = simp.contents.particles
+                    for i_ in range(len(_extra)):
+                        ps_[i_].ax += _extra[i_][0]; ps_[i_].ay += _extra[i_][1]; ps_[i_].az += _extra[i_][2]
+                sim.additional_forces = af
+            if grav == "tree":
+                tree_ready(sim)
+                if sim.N - sim.N_var != nr_:
+                    continue
+            if f["entry"] == "calculate_acceleration":
+                calc(sim)
+            elif f["entry"] == "update_acceleration":
+                clib.reb_simulation_update_acceleration(ctypes.byref(sim))
+            else:
+                sim.integrator = "none"; sim.dt = 0.0
+                sim.steps(1)
+                if sim.N - sim.N_var != nr_:
+                    continue
+            xs2 = [[sim.particles[i].x, sim.particles[i].y, sim.particles[i].z] for i in range(nr_)]
+            got = read_acc(sim, nr_)
+            if grav == "tree":      # update_tree may have re-ordered
+                cfg["ms"] = [sim.particles[i].m for i in range(nr_)]
+            # ---- oracle
+            if f["bnd"] == "shear":
+                gh = shear_lattice(cfg)
+                poserr = 8 * EPS * (abs(1.5 * cfg["OMEGA"] * cfg["bs"][0] * cfg["t"]) * cfg["ngx"] + 2 * cfg["bs"][1])
+            else:
+                gh = ghost_shifts(cfg) if f["bnd"] != "none" else [(0.0, 0.0, 0.0)]
+                poserr = 0.0
+            nar_ = nr_ if cfg["Na"] == -1 else cfg["Na"]
+            if grav == "jacobi":
+                want, mag = oracle_jacobi(cfg, xs2)
+            else:
+                want, mag = oracle_direct(cfg, xs2, gh, poserr=poserr)
+            treeall = None
+            if grav == "tree" and nar_ < nr_:
+                treeall = oracle_direct(cfg, xs2, gh, pairs=lambda k, j: k != j, poserr=poserr)
+            if extra and f["entry"] != "calculate_acceleration":
+                want = [tuple(w[c_] + extra[k][c_] for c_ in range(3)) for k, w in enumerate(want)]
+                mag = [(m_[0] + max(abs(v) for v in extra[k]), m_[1] + 1) for k, m_ in enumerate(mag)]
+                if treeall:
+                    treeall = ([tuple(w[c_] + extra[k][c_] for c_ in range(3)) for k, w in enumerate(treeall[0])], [(m_[0] + max(abs(v) for v in extra[k]), m_[1] + 1) for k, m_ in enumerate(treeall[1])])
+            q, kq = cmp_acc(got, want, mag)
+            plog.add(f)
+            c.count(("pairwise", pi, c.seed if not c.thorough else 0))
+            hist["pairwise"] = hist.get("pairwise", 0) + 1
+            if q > 1.0:
+                key = "pairwise:" + grav
+                if treeall and cmp_acc(got, treeall[0], treeall[1])[0] <= 1.0:
+                    key = "FC02d:tree-ignores-N_active"
+                else:
+                    pw_fail += 1
+                viol.append((key, "%s via %s after (%s, %s), boundary %s, roles %s (N=%d N_active=%d type=%d ignore=%d, var=%s, cb=%s): acceleration of particle %d differs from the declarative "
+                             "pairwise sum by %.3g x tolerance" % (grav, f["entry"], f["h1"], f["h2"], f["bnd"], f["roles"], nr_, cfg["Na"], cfg["tp"], cfg["ignore"], f["var"], f["cb"], kq, q),
+                             dict(factors=f, cfg=cfg, xs=xs2, particle=kq, got=got[kq], want=want[kq])))
+            worst["pairwise:" + grav] = max(worst.get("pairwise:" + grav, 0.0), q if (q != float("inf") and not (treeall and q > 1.0)) else 0.0)
+            # ---- and into the model tie when the model has the notion
+            if f["entry"] == "calculate_acceleration" and f["cb"] == "none" and grav in ("basic", "compensated", "jacobi"):
+                if grav == "basic" and f["bnd"] in ("none", "periodic", "open"):
+                    bs_ = cfg.get("bs", (0.0, 0.0, 0.0))
+                    add_line(["basic", nr_, nar_, cfg["tp"], cfg["ignore"], 1 if f["bnd"] != "none" else 0, cfg.get("ngx", 0), cfg.get("ngy", 0), cfg.get("ngz", 0), d2h(G), d2h(cfg["soft"]),
+                              d2h(bs_[0]), d2h(bs_[1]), d2h(bs_[2])] + body_tokens(cfg["ms"], xs2), got, ("basic", dict(cfg, ngx=cfg.get("ngx", 0), ngy=cfg.get("ngy", 0), ngz=cfg.get("ngz", 0), shifted=1 if f["bnd"] != "none" else 0, bs=bs_), xs2, mag))
+                elif grav == "basic" and f["bnd"] == "shear":
+                    add_line(["shear", nr_, nar_, cfg["tp"], cfg["ignore"], cfg["ngx"], cfg["ngy"], cfg["ngz"], d2h(G), d2h(cfg["soft"]), d2h(cfg["bs"][0]), d2h(cfg["bs"][1]), d2h(cfg["bs"][2]),
+                              d2h(cfg["OMEGA"]), d2h(cfg["t"])] + body_tokens(cfg["ms"], xs2), got, ("shear", cfg, xs2, mag))
+                elif grav == "compensated":
+                    add_line(["comp", nr_, nar_, cfg["tp"], cfg["ignore"], d2h(G), d2h(cfg["soft"])] + body_tokens(cfg["ms"], xs2), got, ("comp", cfg, xs2, mag))
+                elif grav == "jacobi":
+                    add_line(["jacobi", nr_, nar_, d2h(G)] + body_tokens(cfg["ms"], xs2), got, ("jacobi", cfg, xs2, mag))
+        except Exception as ex:
+            viol.append(("pairwise:crash", "pairwise case %r raised %r" % (f, ex), dict(factors=f)))
+    # factor log of the encounter routines (MERCURIUS mode 0/1, TRACE interaction/Kepler): filled by their blocks below
+    EF = {"routine": ["mercurius", "trace"], "weight": ["mercury", "C4", "C5", "infinity", "Ks=0", "Ks sparse", "Ks half", "Ks=1"],
+          "map": ["identity", "subset", "star only"], "roles": ["all-active", "one-active", "mid"], "tp": [0, 1], "soft": ["0", "!=0"], "nclass": ["1-2", "3-6", "7+"]}
+
+    def ef_ok(f):
+        # the changeover function exists only for MERCURIUS, the current_Ks mask only for TRACE
+        if (f["routine"] == "mercurius") != (f["weight"] in ("mercury", "C4", "C5", "infinity")):
+            return False
+        # with one or two particles there is neither a proper subset map nor a middle N_active
+        if f["nclass"] == "1-2" and (f["map"] == "subset" or f["roles"] == "mid"):
+            return False
+        return True
+    from c02_pairs import valid_pairs
+    ev_, ex_ = valid_pairs(EF, ef_ok, SplitMix(99))
+    elog = PairLog(EF, ev_, ex_)
+
+    def enc_factors(routine, weight, mp, n, cfg):
+        na_ = n if cfg["Na"] == -1 else cfg["Na"]
+        return dict(routine=routine, weight=weight, map=("identity" if len(mp) == n else ("star only" if len(mp) == 1 else "subset")),
+                    roles=("all-active" if na_ == n else ("one-active" if na_ == 1 else "mid")), tp=cfg["tp"], soft=("0" if cfg["soft"] == 0 else "!=0"),
+                    nclass=("1-2" if n <= 2 else ("3-6" if n <= 6 else "7+")))
+    prep = plog.report()
+    prep["factors"] = {k_: len(v_) for k_, v_ in PF.items()}
+    prep["array_size"] = len(arr)
+    c.cov["pairs"] = prep
+    if c.thorough and prep["covered"] < prep["total"]:
+        c.broken.append("coverage: %d of %d admissible factor pairs were not evaluated in the thorough tier, e.g. %s" % (prep["total"] - prep["covered"], prep["total"], prep["missing"][:3]))
+
     # ======================================================================= force after an integrator switch
     # "whichever routine is selected": gravity_ignore_terms left behind by one integrator must not leak into the next
     SWI = [("whfast", "jacobi", 1), ("whfast", "democraticheliocentric", 2), ("whfast", "whds", 2), ("saba", None, 1), ("eos", None, 2),
@@ -879,6 +1151,8 @@ def run(c):
         na = n if cfg["Na"] == -1 else cfg["Na"]
         if full:
             S = list(range(1, n))
+        elif rng.chance(0.15):
+            S = []                                   # nobody but the star is in the encounter set
         else:
             S = [i for i in range(1, n) if rng.chance(0.5)]
         mp = [0] + S
@@ -950,6 +1224,7 @@ def run(c):
             else:
                 w1.append(init[k]); m1.append((0.0, 0))
         note("merc0", cfg); note("merc1", cfg)
+        elog.add(enc_factors("mercurius", LNAMES[kind], mp, n, cfg))
         if mp != list(range(n)):
             dims["roles: non-identity encounter map (MERCURIUS/TRACE)"] = dims.get("roles: non-identity encounter map (MERCURIUS/TRACE)", 0) + 1
         # L evaluated near a clamp changes by O(1)*ulp(y): allow the rounding of y through L' <= 2.2
@@ -1028,6 +1303,7 @@ def run(c):
             else:
                 w1.append(init[k]); m1.append((0.0, 0))
         note("trace0", cfg); note("trace1", cfg)
+        elog.add(enc_factors("trace", {0.0: "Ks=0", 0.1: "Ks sparse", 0.5: "Ks half", 1.0: "Ks=1"}[pK], mp, n, cfg))
         if mp != list(range(n)):
             dims["roles: non-identity encounter map (MERCURIUS/TRACE)"] = dims.get("roles: non-identity encounter map (MERCURIUS/TRACE)", 0) + 1
         check_oracle("trace0", cfg, xs, got0, want0, mag0, dict(ks=ks))
@@ -1245,6 +1521,95 @@ def run(c):
                                     "impl": " ".join(et)[:600]}
             else:
                 stats["within_tol"] += 1
+    erep = elog.report(); erep["factors"] = {k_: len(v_) for k_, v_ in EF.items()}
+    c.cov["pairs_encounter_routines"] = erep
+    if c.thorough and erep["covered"] < erep["total"]:
+        c.broken.append("coverage: %d of %d admissible factor pairs of the MERCURIUS/TRACE routines were not evaluated, e.g. %s" % (erep["total"] - erep["covered"], erep["total"], erep["missing"][:3]))
+    # ======================================================================= public entry points (extracted from the headers / Python layer)
+    import re as _re
+    hdr = open(os.path.join(REPO, "src", "rebound.h")).read()
+    entry = set(_re.findall(r"^DLLEXPORT[^;(]*?\b(reb_simulation_update_acceleration|reb_simulation_update_tree|reb_simulation_configure_box|reb_integrator_mercurius_L_\w+|reb_simulation_step|reb_simulation_steps)\s*\(", hdr, flags=_re.M))
+    for hf, pat in (("gravity.h", r"^void\s+(reb_calculate_acceleration)\s*\("), ("boundary.h", r"^struct reb_vec6d\s+(reb_boundary_get_ghostbox)\s*\("),
+                    ("tree.h", r"^void\s+(reb_simulation_update_tree_gravity_data)\s*\(")):
+        entry |= set(_re.findall(pat, open(os.path.join(REPO, "src", hf)).read(), flags=_re.M))
+    pysrc = open(os.path.join(REPO, "rebound", "simulation.py")).read()
+    gm = _re.search(r"^GRAVITIES\s*=\s*\{([^}]*)\}", pysrc, flags=_re.M)
+    pygrav = _re.findall(r'"(\w+)"\s*:', gm.group(1)) if gm else []
+    bm = _re.search(r"^BOUNDARIES\s*=\s*\{([^}]*)\}", pysrc, flags=_re.M)
+    pybnd = _re.findall(r'"(\w+)"\s*:', bm.group(1)) if bm else []
+    used = set()
+    # direct calls of the entry points the blocks above reach only indirectly, each against the oracle
+    rng = c.rng.fork()
+    simE = rebound.Simulation()
+    simE.configure_box(7.0, 2, 1, 1); used.add("reb_simulation_configure_box")
+    clib.reb_boundary_get_ghostbox.restype = rebound.vectors.Vec6d
+    for bname in pybnd:
+        simE.boundary = bname
+        simE.ri_sei.OMEGA = 1.3; simE.t = 2.1
+        cfgE = dict(bs=(simE.boxsize.x, simE.boxsize.y, simE.boxsize.z), ngx=2, ngy=1, ngz=1, shifted=0 if bname == "none" else 1, OMEGA=1.3, t=2.1)
+        wantg = shear_lattice(dict(cfgE), True) if bname == "shear" else ghost_shifts(cfgE)
+        gotg = []
+        for i_ in range(-2, 3):
+            for j_ in range(-1, 2):
+                for k_ in range(-1, 2):
+                    gb_ = clib.reb_boundary_get_ghostbox(ctypes.byref(simE), ctypes.c_int(i_), ctypes.c_int(j_), ctypes.c_int(k_))
+                    gotg.append((gb_.x, gb_.y, gb_.z))
+        if bname == "shear":
+            wantg = [(w[0], w[1], w[2]) for w in wantg]
+        if gotg != [tuple(w) for w in wantg]:
+            viol.append(("entry:get_ghostbox:" + bname, "reb_boundary_get_ghostbox differs from the specified shifts for boundary=%s" % bname, dict(boundary=bname, got=gotg[:6], want=wantg[:6])))
+        used.add("boundary=" + bname)
+    used.add("reb_boundary_get_ghostbox")
+    for li, lname in enumerate(LNAMES):
+        fnL = getattr(clib, "reb_integrator_mercurius_L_" + lname)
+        fnL.restype = ctypes.c_double
+        fnL.argtypes = [ctypes.c_void_p, ctypes.c_double, ctypes.c_double]
+        for _ in range(40):
+            dcr = rng.loguniform(1e-2, 1e2); dd_ = dcr * rng.choice([0.05, 0.1, rng.uniform(0.1, 1.0), 1.0, 1.5])
+            gl = fnL(None, dd_, dcr); wl = L_oracle(li, dd_, dcr)
+            if not abs(gl - wl) <= 3e4 * EPS:
+                viol.append(("entry:L_" + lname, "reb_integrator_mercurius_L_%s(%.17g, %.17g) = %.17g, expected %.17g" % (lname, dd_, dcr, gl, wl), dict(L=lname, d=dd_, dcrit=dcr)))
+                break
+        used.add("reb_integrator_mercurius_L_" + lname)
+    for gname in pygrav:            # every Python spelling of the routine selector reaches the routine it names
+        simG = rebound.Simulation()
+        simG.integrator = {"mercurius": "mercurius", "trace": "trace", "jacobi": "whfast"}.get(gname, "ias15")
+        if gname == "tree":
+            simG.configure_box(10.0)
+        simG.gravity = gname
+        simG.add(m=1.0); simG.add(m=1e-3, x=1.0, vy=1.0); simG.add(m=1e-3, x=-2.0, vy=-0.7)
+        try:
+            if gname in ("mercurius", "trace"):
+                simG.dt = 1e-3; simG.steps(1)
+            else:
+                if gname == "tree":
+                    tree_ready(simG)
+                clib.reb_simulation_update_acceleration(ctypes.byref(simG))
+            a1 = simG.particles[1].ax
+            if gname == "none":
+                okg = a1 == 0.0
+            elif gname in ("mercurius", "trace"):      # the WH part after a step: planet-planet term only, -G m_2/3^2
+                okg = abs(a1 - (-1e-3 / 9.0)) < 1e-6
+            elif gname == "jacobi":                    # star-planet-1 pair excluded, Jacobi terms added: -m_2/9 - m_2 Q_2/|Q_2|^3, Q_2 = x_2 - R_2/M_2
+                okg = abs(a1 - (-1e-3 / 9.0 + 1e-3 / (2.0 + 1e-3 / 1.001) ** 2)) < 1e-7
+            else:
+                okg = abs(a1 - (-1.0 - 1e-3 / 9.0)) < 1e-2
+            if not okg:
+                viol.append(("entry:gravity=" + gname, "sim.gravity = %r: acceleration of particle 1 is %.6g" % (gname, a1), dict(gravity=gname)))
+        except Exception as ex:
+            viol.append(("entry:gravity=" + gname, "sim.gravity = %r raised %r" % (gname, ex), dict(gravity=gname)))
+        used.add("gravity=" + gname)
+    used |= {"reb_calculate_acceleration", "reb_simulation_update_acceleration", "reb_simulation_update_tree", "reb_simulation_update_tree_gravity_data",
+             "reb_simulation_steps"} if hist.get("pairwise", 0) and hist.get("tree0", 0) + hist.get("treeT", 0) else set()
+    if any(fc["entry"] == "step" for fc in todo_cases):
+        used.add("reb_simulation_step")       # reb_simulation_steps loops over reb_simulation_step
+    want_entry = set(entry) | {"gravity=" + g for g in pygrav} | {"boundary=" + b for b in pybnd}
+    c.cov["entry_points_extracted"] = sorted(want_entry)
+    c.cov["entry_points_exercised"] = len(want_entry & used)
+    if len(entry) < 12 or len(pygrav) < 7 or len(pybnd) < 4:
+        c.broken.append("entry-point extraction found only %d C functions / %d gravity names / %d boundary names" % (len(entry), len(pygrav), len(pybnd)))
+    if want_entry - used:
+        c.broken.append("entry points not exercised in this run: " + ", ".join(sorted(want_entry - used)))
     c.cov["dimensions"] = dict(sorted(dims.items()))
     for nm_, cnt_ in sorted(dims.items()):
         if cnt_ == 0:
